@@ -29,6 +29,8 @@ pub struct RefStep {
 #[derive(Debug)]
 pub struct RefBlock {
     pub steps: Vec<RefStep>,
+    /// raw journal output of every executed transaction (None for skipped ones)
+    pub raw: Vec<Option<revm_state::EvmState>>,
     /// (failing index, error) if in-order execution meets a fatal error.
     pub error: Option<(usize, EVMError<SimDbError>)>,
 }
@@ -49,9 +51,10 @@ pub fn run_reference_block(
     preload_beneficiary: bool,
 ) -> RefBlock {
     let mut steps = Vec::with_capacity(txs.len());
+    let mut raw = Vec::with_capacity(txs.len());
     if preload_beneficiary {
         if let Err(e) = state.basic_ref(block.beneficiary) {
-            return RefBlock { steps, error: Some((0, EVMError::Database(e.into_external_error()))) };
+            return RefBlock { steps, raw, error: Some((0, EVMError::Database(e.into_external_error()))) };
         }
     }
     let cfg = make_cfg(evm_spec);
@@ -70,10 +73,12 @@ pub fn run_reference_block(
         match evm.transact(make_tx(tx)) {
             Ok(result_and_state) => {
                 let delta = normalise(&result_and_state.state);
+                raw.push(Some(result_and_state.state.clone()));
                 evm.ctx.journaled_state.database.commit(result_and_state.state);
                 steps.push(RefStep { outcome: TxExecutionOutcome::Executed(result_and_state.result), delta: Some(delta) });
             }
             Err(EVMError::Transaction(invalid)) => {
+                raw.push(None);
                 steps.push(RefStep { outcome: TxExecutionOutcome::Skipped(invalid), delta: None });
             }
             Err(other) => {
@@ -84,11 +89,11 @@ pub fn run_reference_block(
                     EVMError::Custom(s) => EVMError::Custom(s),
                     EVMError::CustomAny(a) => EVMError::CustomAny(a),
                 };
-                return RefBlock { steps, error: Some((txid, other)) };
+                return RefBlock { steps, raw, error: Some((txid, other)) };
             }
         }
     }
-    RefBlock { steps, error: None }
+    RefBlock { steps, raw, error: None }
 }
 
 pub fn take_ref_bundle(state: &mut RefState<'_>, retention: BundleRetention) -> BundleState {
